@@ -293,3 +293,32 @@ pub fn waker_shared(id: usize, ledger: &Arc<Ledger>, callback: Option<WakerCallb
     // SAFETY: the vtable functions uphold the RawWaker contract; data is freed by free_wakers.
     unsafe { Waker::from_raw(RawWaker::new(p as *const (), &SHARED_VTABLE)) }
 }
+
+/// Global allocator for the harness binaries: fills every block with `0xDD` just before it is
+/// returned to the system allocator, so that a read of a freed (boxed) event decodes an impossible
+/// state instead of silently seeing the old contents. The property (C06/C07) says the storage may
+/// be freed or re-used immediately after release, which includes being overwritten.
+pub struct PoisonOnFree;
+
+// SAFETY: forwards to the system allocator; the block is still owned by the caller of `dealloc`
+// while it is being overwritten.
+unsafe impl std::alloc::GlobalAlloc for PoisonOnFree {
+    unsafe fn alloc(&self, layout: std::alloc::Layout) -> *mut u8 {
+        // SAFETY: forwarded contract.
+        unsafe { std::alloc::System.alloc(layout) }
+    }
+    unsafe fn dealloc(&self, ptr: *mut u8, layout: std::alloc::Layout) {
+        // SAFETY: `ptr` denotes a live block of `layout.size()` bytes owned by the caller.
+        unsafe { std::ptr::write_bytes(ptr, 0xDD, layout.size()) };
+        // SAFETY: forwarded contract.
+        unsafe { std::alloc::System.dealloc(ptr, layout) }
+    }
+    unsafe fn alloc_zeroed(&self, layout: std::alloc::Layout) -> *mut u8 {
+        // SAFETY: forwarded contract.
+        unsafe { std::alloc::System.alloc_zeroed(layout) }
+    }
+    unsafe fn realloc(&self, ptr: *mut u8, layout: std::alloc::Layout, new_size: usize) -> *mut u8 {
+        // SAFETY: forwarded contract.
+        unsafe { std::alloc::System.realloc(ptr, layout, new_size) }
+    }
+}
